@@ -92,11 +92,32 @@ def rule_r1(ck, prog, rule='C20.R1', cls='nostd::shared_ptr'):
         if f.kind != 'moveassign':
             continue
         resets = [n for n in f.nodes if n['k'] == 'call' and strip_targs(n.get('c', '')).endswith('unique_ptr::reset')]
-        ok = len(resets) == 1 and any(f.nodes[i]['k'] == 'call' and strip_targs(f.nodes[i].get('c', '')).endswith('unique_ptr::release') and
-                                      strip_casts(f, f.nodes[i]['obj']).get('id') == f.params[0]['id'] for i in f.subtree(resets[0]['args'][0]))
+        ok = _transfers_ownership(prog, f, resets)
         ck.verdict(ok, rule, f, 'unique_ptr:reset(other.release())', resets[0] if resets else None, 'ownership transferred in one reset(other.release())' if ok else
                    'unique_ptr move assignment does not transfer ownership as reset(other.release()): the source keeps the pointer (double delete) or the old object leaks')
         break
+
+
+def _transfers_ownership(prog, f, resets):
+    """reset receives what the source held and the source no longer holds it afterwards: the argument of the single reset derives
+    (through once-initialised locals) from other.release() or a read of other's pointer member, and on every path to the exit the
+    source is emptied by release() or by an assignment of nullptr to its pointer member"""
+    from .common import subtree_through_locals
+    if len(resets) != 1 or not f.params or not resets[0].get('args'):
+        return False
+    other = f.params[0]['id']
+    sub = [f.nodes[i] for i in list(subtree_through_locals(f, resets[0]['args'][0])) + [resets[0]['args'][0]]]
+    takes = any(n['k'] == 'call' and strip_targs(n.get('c', '')).rsplit('::', 1)[-1] in ('release', 'get') and n.get('obj') is not None and
+                strip_casts(f, n['obj']).get('id') == other for n in sub) or \
+        any(n['k'] == 'member' and n.get('base') is not None and strip_casts(f, n['base']).get('id') == other for n in sub)
+    if not takes:
+        return False
+    g = Graph(prog, f, inline=None, sync_lambdas=False)
+    empt = [p for p in g.points if p.f is f and p.n is not None and (
+        (p.n['k'] == 'call' and strip_targs(p.n.get('c', '')).rsplit('::', 1)[-1] == 'release' and p.n.get('obj') is not None and strip_casts(f, p.n['obj']).get('id') == other) or
+        (p.n['k'] == 'binop' and p.n['op'] == '=' and f.nodes[p.n['lhs']]['k'] == 'member' and f.nodes[p.n['lhs']].get('base') is not None and
+         strip_casts(f, f.nodes[p.n['lhs']]['base']).get('id') == other and (strip_casts(f, p.n['rhs']).get('null') or strip_casts(f, p.n['rhs']).get('v') == 0)))]
+    return bool(empt) and g.exit.id not in g.reachable_from(g.entry, avoid=empt)
 
 
 def rule_r1_unique(ck, prog, rule='C20.R1', cls='nostd::unique_ptr'):
@@ -148,8 +169,7 @@ def rule_r1_unique(ck, prog, rule='C20.R1', cls='nostd::unique_ptr'):
         if f.params and 'nullptr' in f.params[0]['t']:
             ok = len(resets) == 1
         else:
-            ok = len(resets) == 1 and any(f.nodes[i]['k'] == 'call' and strip_targs(f.nodes[i].get('c', '')).endswith('unique_ptr::release') and
-                                          strip_casts(f, f.nodes[i]['obj']).get('id') == f.params[0]['id'] for i in f.subtree(resets[0]['args'][0]))
+            ok = _transfers_ownership(prog, f, resets)
         ck.verdict(ok, rule, f, site, resets[0] if resets else None, 'reset(other.release())' if ok else
                    'this assignment overload does not transfer ownership as reset(other.release()): the old object leaks or the source keeps the pointer (double delete)')
     if n_as < 4:
@@ -694,6 +714,23 @@ def rule_r7(ck, prog, rule='C20.R7'):
                             if isinstance(a, tuple) and isinstance(b, tuple):
                                 v = b[2] - a[2]
                 got[p.el['init']] = v
+        if not got:
+            # a delegating constructor: span(first, last) : span{first, distance(first, last)}
+            def val_(e):
+                v_ = ieval(g, rd, f, e, g.root_ctx, env)
+                if v_ is None:
+                    for i in list(f.subtree(e)) + [e]:
+                        m_ = f.nodes[i]
+                        if m_['k'] == 'call' and strip_targs(m_.get('c', '')).endswith('std::distance') and len(m_.get('args', [])) == 2:
+                            a, b = ieval(g, rd, f, m_['args'][0], g.root_ctx, env), ieval(g, rd, f, m_['args'][1], g.root_ctx, env)
+                            if isinstance(a, tuple) and isinstance(b, tuple):
+                                v_ = b[2] - a[2]
+                return v_
+            for n in f.nodes:
+                if n['k'] == 'construct' and strip_targs(n.get('c', '')).endswith('nostd::span::span') and len(n.get('args', [])) == 2 and \
+                        (f.nodes[n['args'][0]].get('t') or '').rstrip().endswith('*') and not (f.nodes[n['args'][1]].get('t') or '').rstrip().endswith('*'):
+                    got['data_'] = val_(n['args'][0])
+                    got['extent_'] = val_(n['args'][1])
         cnt += 1
         if got.get('extent_') is None or got.get('data_') is None:
             ck.inconclusive(rule, f, 'span-from-pointer-pair', None, 'member initialisers do not fold')
